@@ -72,7 +72,7 @@ TrMarshal ==
          G(D) == MarshalGuard(D, e.h, res)
      IN  /\ buf'  = [buf EXCEPT ![e.h] = IF res.ok THEN res.out ELSE << >>]
          /\ prov' = [prov EXCEPT ![e.h] = IF res.ok THEN pk[e.h] ELSE None]
-         /\ memo' = [memo EXCEPT ![e.h].marshal = res]
+         /\ memo' = [memo EXCEPT ![e.h].marshal = res, ![e.h].hasstr = IF ContainsXR(pk[e.h]) THEN FALSE ELSE @]
          /\ provdec' = IF res.ok /\ e.h \in fromdec THEN provdec \cup {e.h} ELSE provdec \ {e.h}
          /\ UNCHANGED fromdec
          /\ pk'   = IF e.post.k = "SAME" THEN pk ELSE [pk EXCEPT ![e.h] = e.post]
@@ -86,7 +86,7 @@ TrSize ==
 TrDest ==
   /\ e.op = "dest"
   /\ LET G(D) == DestGuard(D, e.h, e.out) IN
-     /\ memo' = [memo EXCEPT ![e.h].dest = e.out] /\ UNCHANGED << buf, prov, fromdec, provdec >>
+     /\ memo' = [memo EXCEPT ![e.h].dest = e.out, ![e.h].hasdest = TRUE] /\ UNCHANGED << buf, prov, fromdec, provdec >>
      /\ pk' = IF e.post.k = "SAME" THEN pk ELSE [pk EXCEPT ![e.h] = e.post]
      /\ Step(Verdict(G, Modified(e)), {"dest"}, pk[e.h].k)
 TrHeader ==
@@ -99,7 +99,7 @@ TrString ==
   /\ e.op = "string"
   /\ LET res == [panic |-> e.panic, out |-> e.out]
          G(D) == StringGuard(e.h, res) IN
-     /\ memo' = [memo EXCEPT ![e.h].str = e.out] /\ UNCHANGED << buf, prov, fromdec, provdec >>
+     /\ memo' = [memo EXCEPT ![e.h].str = e.out, ![e.h].hasstr = TRUE] /\ UNCHANGED << buf, prov, fromdec, provdec >>
      /\ pk' = IF e.post.k = "SAME" THEN pk ELSE [pk EXCEPT ![e.h] = e.post]
      /\ Step(Verdict(G, Modified(e)), {"string"}, pk[e.h].k)
 
@@ -135,10 +135,11 @@ TrRemb ==
 
 \* unit tables and exhaustive Go sweeps (C16)
 TrTables ==
-  /\ e.op \in {"utable", "rletable", "sweep"}
+  /\ e.op \in {"utable", "rletable", "sweep", "enumstring"}
   /\ LET G(D) == IF e.panic THEN {"C16:panic"}
                  ELSE CASE e.op = "utable" -> UnitRowTags(e.entry, e.start, e.out)
                         [] e.op = "rletable" -> RleRowTags(e.start, e.out)
+                        [] e.op = "enumstring" -> (IF e.failures # << >> THEN {"C17:enum_string_panic"} ELSE {})
                         [] e.op = "sweep" -> (IF e.failures # << >> THEN
                                                  {IF e.entry = "nackequiv32" THEN "C12:equivariance"
                                                   ELSE IF e.entry = "rembscale24" THEN "C14:scaling" ELSE "C16:sweep"} ELSE {}) IN
